@@ -12,7 +12,7 @@
    witnesses that the check replays on the implementation. *)
 From Coq Require Import List ZArith Bool.
 Import ListNotations.
-From PV Require Import Fort.Syntax Fort.Sem C28.Model C28.Proofs C28.Gen C28.GenProofs C28.PsyProofs.
+From PV Require Import Fort.Syntax Fort.Sem C28.Model C28.Proofs C28.Gen C28.TableProofs C28.PsyProofs.
 
 (* any program (all stores, all fuel) without escaping transfer has a well-bracketed trace *)
 Theorem C28_balanced_partial : forall fuel p st st' tr c,
